@@ -237,3 +237,14 @@ pub fn heartbeat(step: &str) {
         g.push_str(step);
     }
 }
+
+/// Root of the repository under test (`VERIF_REPO`, default `/repo`): panics located under it are
+/// decoder panics.
+pub fn repo_root() -> String {
+    std::env::var("VERIF_REPO").unwrap_or_else(|_| "/repo".to_string())
+}
+
+pub fn is_decoder_location(loc: &str) -> bool {
+    let root = repo_root();
+    loc.starts_with(&format!("{root}/")) || loc.starts_with("/repo/") || loc.contains("/rustc/") || loc.contains("/.cargo/registry/")
+}
